@@ -407,7 +407,9 @@ def judge_c12(ctx, ex):
     for k, v in f_lo.items():
         by_fact_lo.setdefault(k[:5], []).append(v)
     for k, (ratio, count) in f_hi.items():
-        for (r2, c2) in by_fact_lo.get(k[:5], []):
+        if k[4] == "+" and k[5] == "line" and hi["flags"]["disable_exact_cardinality"]:
+            continue   # documented: a '+' line may carry the figure of the exact cardinality it generalises
+        for (r2, c2) in [v for kk, v in f_lo.items() if kk[:5] == k[:5] and not (kk[4] == "+" and kk[5] == "line" and lo["flags"]["disable_exact_cardinality"])]:
             cls = "STAGE-nonliteral-merge-figures" if k[3] == "NONLITERAL" else None
             yield ("figure (count) of %r differs between the two thresholds" % (k[:5],), fig_differs(ex, count, c2), cls)
             yield ("figure (ratio) of %r differs between the two thresholds" % (k[:5],), fig_differs(ex, ratio, r2), cls)
@@ -742,8 +744,19 @@ def _equals(v, size):
     return as_expr(v) == as_expr(size)
 
 
+def _decimals_verdict(text, exact, n):
+    """'' ok | 'format' (not n decimal places) | 'trunc' (decimals=0: floor instead of round) | 'value' (anything else)."""
+    import math
+    if _decimals(text) != n:
+        return "format"
+    if abs(float(text) - exact) <= 0.5 * 10 ** (-n) + 1e-9:
+        return ""
+    if n == 0 and float(text) == math.floor(exact + 1e-9):
+        return "trunc"
+    return "value"
+
+
 def _decimals_check(ctx, ex, run, n):
-    from symx.symnum import render_token
     for sh in run["schema"].shapes:
         size = _size_of(ctx, sh.label)
         items = []
@@ -754,7 +767,15 @@ def _decimals_check(ctx, ex, run, n):
                 if com.get("ratio") is not None and com.get("count") is not None:
                     items.append((com["ratio"], com["count"], com["raw"][:50]))
         for ratio, count, where in items:
+            msgs = {"format": ("decimals=%d: ratio on '%s' of %s is not printed with %d decimal places" % (n, where, sh.label, n), None),
+                    "value": ("decimals=%d: ratio on '%s' of %s is not the exact ratio rounded to %d places" % (n, where, sh.label, n), None),
+                    "trunc": ("decimals=0: ratio on '%s' of %s is truncated instead of rounded" % (where, sh.label), "STAGE-decimals0-truncates")}
             if ratio.token is None:
+                cnum, snum = fig_value(ex, count), size
+                if isinstance(cnum, (int, float)) and isinstance(snum, int) and snum:
+                    v = _decimals_verdict(ratio.text, 100.0 * cnum / snum, n)
+                    if v:
+                        yield (msgs[v][0], True, msgs[v][1])
                 continue
             entry = ex.tokens[ratio.token]
             rv, cv = entry[0], fig_value(ex, count)
@@ -762,18 +783,17 @@ def _decimals_check(ctx, ex, run, n):
             deps, p1, p2 = rf._merge(cf)
             tmp = SymFloat(deps, lambda vals: 0)
             deps2, q1, q2 = tmp._merge(sf)
-
-            def pred(vals, rf=rf, cf=cf, sf=sf, p1=p1, p2=p2, q1=q1, q2=q2, entry=entry):
-                v12 = q1(vals)
-                r = rf.fn(p1(v12))
-                c = cf.fn(p2(v12))
-                s_ = sf.fn(q2(vals))
-                if s_ == 0:
-                    return False
-                shown = float(format(r, entry[1]) if entry[2] == "format" else str(r))
-                return abs(shown - 100.0 * c / s_) > 0.5 * 10 ** (-n) + 1e-9
-            cls = "STAGE-decimals0-truncates" if n == 0 else None
-            yield ("decimals=%d: ratio on '%s' of %s is not the exact ratio rounded to %d places" % (n, where, sh.label, n), rf._table(deps2, pred), cls)
+            for verdict in ("format", "value", "trunc"):
+                def pred(vals, rf=rf, cf=cf, sf=sf, p1=p1, p2=p2, q1=q1, q2=q2, entry=entry, verdict=verdict):
+                    v12 = q1(vals)
+                    r = rf.fn(p1(v12))
+                    c = cf.fn(p2(v12))
+                    s_ = sf.fn(q2(vals))
+                    if s_ == 0:
+                        return False
+                    text = format(r, entry[1]) if entry[2] == "format" else str(r)
+                    return _decimals_verdict(text, 100.0 * c / s_, n) == verdict
+                yield (msgs[verdict][0], rf._table(deps2, pred), msgs[verdict][1])
 
 
 # ------------------------------------------------------------------------- C03 (reference validator)
